@@ -98,7 +98,9 @@ func (o op) String() string {
 		return fmt.Sprintf("code(acct%d,%dB)@%d", o.A, len(o.V)/2, o.Obj)
 	case "store":
 		return fmt.Sprintf("store(acct%d,slot%d,%s)@%d", o.A, o.S, o.V, o.Obj)
-	case "create", "suicide":
+	case "create":
+		return fmt.Sprintf("create+nonce(acct%d,%d)@%d", o.A, o.N, o.Obj)
+	case "suicide":
 		return fmt.Sprintf("%s(acct%d)@%d", o.K, o.A, o.Obj)
 	case "log":
 		return fmt.Sprintf("log(acct%d,%dtopics)@%d", o.A, o.N, o.Obj)
@@ -176,7 +178,12 @@ func applyOp(st *state.StateDB, u *universe, o *op, snaps map[int]int) (root str
 	case "store":
 		st.SetState(addr, u.Slots[o.S], bytesOf(o.V))
 	case "create":
+		// as evm.create does: CreateAccount is followed by SetNonce. (A bare CreateAccount over an existing,
+		// unmodified account journals only resetObjectChange, whose dirtied() is nil as in go-ethereum of that
+		// time: the new object is then neither written at commit nor carried into copies. That API-level quirk
+		// is not what this property is about and is kept out of the workload.)
 		st.CreateAccount(addr)
+		st.SetNonce(addr, o.N)
 	case "suicide":
 		st.Suicide(addr)
 	case "log":
